@@ -20,7 +20,9 @@ import (
 	"github.com/mutagen-io/mutagen/pkg/encoding"
 	"github.com/mutagen-io/mutagen/pkg/stream"
 	"github.com/mutagen-io/mutagen/pkg/synchronization/compression"
+	"github.com/mutagen-io/mutagen/pkg/synchronization/endpoint/remote"
 	"github.com/mutagen-io/mutagen/pkg/synchronization/rsync"
+	"github.com/mutagen-io/mutagen/pkg/url"
 
 	"verif/internal/vr"
 )
@@ -320,6 +322,11 @@ func mustMarshalLen(m *rsync.Transmission) []byte {
 type delivery struct {
 	C1, C2 int
 	Chunk  int
+	// Reuse: the receiver decodes every message of the sequence into ONE destination
+	// object that the harness never resets (legitimate API use: Decode, like
+	// proto.Unmarshal, is expected to reset its destination); otherwise a fresh
+	// destination per Decode.
+	Reuse bool `json:",omitempty"`
 }
 
 type c22case struct {
@@ -360,9 +367,16 @@ func decodeAndJudge(f framing, p *produced, d delivery) (out decodeOutcome) {
 		src.bounds = []int{d.C1}
 	}
 	dec := newInStack(algByName(f.Alg), src)
+	reused := &rsync.Transmission{}
 	for {
-		var m rsync.Transmission
-		err := dec.Decode(&m)
+		var fresh rsync.Transmission
+		mp := &fresh
+		if d.Reuse {
+			mp = reused // whatever the previous message left in it
+		}
+		err := dec.Decode(mp)
+		// Compare a snapshot taken right after Decode.
+		m := *proto.Clone(mp).(*rsync.Transmission)
 		if err != nil {
 			out.err = err
 			if src.dry == 0 {
@@ -541,6 +555,68 @@ type c22replay struct {
 	Frame  *c22case    `json:",omitempty"`
 	Forged *forgedCase `json:",omitempty"`
 	Client *clientCase `json:",omitempty"`
+	Typed  *typedCase  `json:",omitempty"`
+}
+
+// typedCase (leg T): a sequence of messages of one protocol type with scalar, map and
+// repeated fields (indices into typedUniverse), decoded into fresh or one reused destination.
+type typedCase struct {
+	Alg   string
+	Type  string // url, stage
+	Seq   []int
+	Reuse bool
+}
+
+func typedUniverse(kind string) []proto.Message {
+	if kind == "url" {
+		return []proto.Message{
+			&url.URL{},
+			&url.URL{Kind: url.Kind_Forwarding, Protocol: url.Protocol_SSH, User: "u", Host: "h", Port: 22, Path: "/p",
+				Environment: map[string]string{"A": "1", "B": "2"}, Parameters: map[string]string{"k": "v"}},
+			&url.URL{Host: "other"},
+			&url.URL{Path: "q", Environment: map[string]string{"C": "3"}},
+		}
+	}
+	return []proto.Message{
+		&remote.EndpointRequest{},
+		&remote.EndpointRequest{Stage: &remote.StageRequest{Paths: []string{"a", "b"}, Digests: [][]byte{{1}, {2}}}},
+		&remote.EndpointRequest{Stage: &remote.StageRequest{Paths: []string{"c"}}},
+		&remote.EndpointRequest{Poll: &remote.PollRequest{}},
+	}
+}
+
+func runTyped(c typedCase) (what string) {
+	defer func() {
+		if x := recover(); x != nil {
+			what = fmt.Sprintf("panic: %v", x)
+		}
+	}()
+	u := typedUniverse(c.Type)
+	out := newOutStack(algByName(c.Alg))
+	for i, k := range c.Seq {
+		if err := out.encoder.Encode(u[k]); err != nil {
+			return fmt.Sprintf("Encode of message %d failed: %v", i, err)
+		}
+	}
+	if err := out.flusher.Flush(); err != nil {
+		return "Flush failed: " + err.Error()
+	}
+	dec := newInStack(algByName(c.Alg), &fragReader{data: out.sink.buf})
+	reused := u[0].ProtoReflect().New().Interface()
+	for i, k := range c.Seq {
+		dst := reused
+		if !c.Reuse {
+			dst = u[0].ProtoReflect().New().Interface()
+		}
+		if err := dec.Decode(dst); err != nil {
+			return fmt.Sprintf("message %d of the flushed sequence did not decode: %v", i, err)
+		}
+		// "decoded by the peer as the same sequence": the k-th decoded value equals the k-th sent.
+		if got := proto.Clone(dst); !proto.Equal(got, u[k]) {
+			return fmt.Sprintf("message %d decoded as %v, sent %v", i, got, u[k])
+		}
+	}
+	return ""
 }
 
 func TestC22(t *testing.T) {
@@ -568,6 +644,13 @@ func TestC22(t *testing.T) {
 		case c.Forged != nil:
 			what := runForged(*c.Forged)
 			t.Logf("replay %s: verdict %q", vr.J(c.Forged), what)
+			r.Case(vr.J(c), true)
+			if what != "" {
+				r.Violate(vr.J(c), what, c, nil)
+			}
+		case c.Typed != nil:
+			what := runTyped(*c.Typed)
+			t.Logf("replay %s: verdict %q", vr.J(c.Typed), what)
 			r.Case(vr.J(c), true)
 			if what != "" {
 				r.Violate(vr.J(c), what, c, nil)
@@ -607,6 +690,7 @@ func TestC22(t *testing.T) {
 	r.Rule(fmt.Sprintf("leg A: every sequence of 1..3 messages with payload sizes {0,1,200,70000} x every subset of flush points x compression %v, written through the real ProtobufEncoder/bufio/compressor/bufio/MultiFlusher stack; the produced wire bytes are given to the real bufio/decompressor/bufio/ProtobufDecoder stack (a) as prefix [0,c) after which the reader runs dry, for every cut c, (b) as two fragments [0,c),[c,end) for every c, (c) one byte per Read; %s. "+
 		"Wires longer than %d bytes (those with a 70000-byte message) are cut at every multiple of %d plus every position within +-%d of a mark (end of each Write to the wire, flush point, uncompressed frame boundary: prefix start/body start/body end, multiples of 32 KiB), shorter wires at every position. "+
 		"leg S: single messages, (message, 3-byte sentinel), (sentinel, message) and (message, message, sentinel) for EVERY encoded message size in [0,300] and [16354,16404] (thorough also 2097152+-20; size 1 does not exist), sizes verified with proto.Size, flushed at the end and after each message, delivered whole and one byte per Read. "+
+		"Receiver mode: every framing and every leg-S framing is additionally decoded whole into ONE destination object never reset by the harness (vs a fresh destination per Decode). leg T: every sequence of 1..3 messages from 4 url.URL values (scalars, two map fields) and from 4 remote.EndpointRequest values (repeated fields, sub-messages), incl. the empty message and sparser-after-fuller, fresh and reused destination. "+
 		"leg F: forged length prefixes {limit+1, limit+2, 2^31, 2^32, 2^62, 2^63, 2^64-1, over-long varints} after 0..2 valid messages. leg B: see client_* keys. "+
 		"non-trivial = at least one message written and a non-empty wire; distinct by (framing, delivery)", algNames, pairRule, exhaustiveBelow, stride, near))
 	r.Assume("leg A composes the pipeline in the harness in the same order as remote/client.go and server.go (64 KiB bufio on both sides of the compressor, MultiFlusher(outbound, compressor, compressedOutbound)); leg B pins that composition against the real remote.NewEndpoint client",
@@ -674,7 +758,7 @@ func TestC22(t *testing.T) {
 			o := decodeAndJudge(f, &p, d)
 			nt := n > 0
 			if nt {
-				l.Case(fmt.Sprintf("%s|%v|%d|%d|%d|%d", f.Alg, f.Sizes, f.Flush, d.C1, d.C2, d.Chunk), true)
+				l.Case(fmt.Sprintf("%s|%v|%d|%d|%d|%d|%v", f.Alg, f.Sizes, f.Flush, d.C1, d.C2, d.Chunk, d.Reuse), true)
 			} else {
 				l.Case("", false)
 			}
@@ -700,12 +784,13 @@ func TestC22(t *testing.T) {
 		}
 		cuts := cutSet(n, p.marks, stride, near, exhaustiveBelow)
 		for _, c := range cuts {
-			eval("dry", delivery{0, c, 0}) // (a) prefix then dry
+			eval("dry", delivery{0, c, 0, false}) // (a) prefix then dry
 			if c > 0 && c < n {
-				eval("frag", delivery{c, n, 0}) // (b) two fragments
+				eval("frag", delivery{c, n, 0, false}) // (b) two fragments
 			}
 		}
-		eval("bytes", delivery{0, n, 1}) // (c) one byte per Read
+		eval("bytes", delivery{0, n, 1, false}) // (c) one byte per Read
+		eval("reuse", delivery{0, n, 0, true})  // (d) whole wire into one reused destination
 		if thorough {
 			pc := cuts
 			if n > exhaustiveBelow {
@@ -716,7 +801,7 @@ func TestC22(t *testing.T) {
 					if pc[a] == 0 {
 						continue // identical to the single-cut delivery
 					}
-					eval("pair", delivery{pc[a], pc[b], 0})
+					eval("pair", delivery{pc[a], pc[b], 0, false})
 				}
 			}
 		}
@@ -766,13 +851,13 @@ func TestC22(t *testing.T) {
 				return
 			}
 			n := len(p.wire)
-			ds := []delivery{{0, n, 0}}
+			ds := []delivery{{0, n, 0, false}, {0, n, 0, true}}
 			if n <= 1<<17 {
-				ds = append(ds, delivery{0, n, 1})
+				ds = append(ds, delivery{0, n, 1, false})
 			}
 			for _, d := range ds {
 				o := decodeAndJudge(f, &p, d)
-				l.Case(fmt.Sprintf("sweep|%s|%v|%d|%d", f.Alg, f.Sizes, f.Flush, d.Chunk), true)
+				l.Case(fmt.Sprintf("sweep|%s|%v|%d|%d|%v", f.Alg, f.Sizes, f.Flush, d.Chunk, d.Reuse), true)
 				if o.what == "" && o.decoded != len(f.Sizes) {
 					o.what = fmt.Sprintf("only %d of %d flushed messages decoded", o.decoded, len(f.Sizes))
 				}
@@ -790,13 +875,51 @@ func TestC22(t *testing.T) {
 		})
 	}
 
+	// ---- leg T: typed messages (scalars, maps, repeated fields), fresh vs reused destination ----
+	{
+		var tcs []typedCase
+		for _, a := range algs {
+			for _, kind := range []string{"url", "stage"} {
+				n := len(typedUniverse(kind))
+				var seqs [][]int
+				for i := 0; i < n; i++ {
+					seqs = append(seqs, []int{i})
+					for j := 0; j < n; j++ {
+						seqs = append(seqs, []int{i, j})
+						for k := 0; k < n; k++ {
+							seqs = append(seqs, []int{i, j, k})
+						}
+					}
+				}
+				for _, sq := range seqs {
+					tcs = append(tcs, typedCase{a.Name, kind, sq, false}, typedCase{a.Name, kind, sq, true})
+				}
+			}
+		}
+		r.Set("typed_cases", len(tcs))
+		vr.Parallel(len(tcs), func(i int) {
+			c := tcs[i]
+			what := runTyped(c)
+			key := vr.J(c22replay{Typed: &c})
+			r.Case(key, true)
+			if what != "" {
+				r.Outcome("typed:violation")
+				r.Violate(key, what, c22replay{Typed: &c}, func() bool { return runTyped(c) != "" })
+			} else if c.Reuse {
+				r.Outcome("typed:reused-destination-ok")
+			} else {
+				r.Outcome("typed:fresh-destination-ok")
+			}
+		})
+	}
+
 	// ---- leg B: the real client (c22b_test.go) ----
 	runClientLeg(r)
 
-	r.Sample(c22replay{Frame: &c22case{F: framing{"deflate", []int{200, 70000, 1}, 5, false}, D: delivery{0, 212, 0}}})
-	r.Sample(c22replay{Frame: &c22case{F: framing{"none", []int{70000, 0}, 2, false}, D: delivery{65536, 70007, 0}}})
+	r.Sample(c22replay{Frame: &c22case{F: framing{"deflate", []int{200, 70000, 1}, 5, false}, D: delivery{0, 212, 0, false}}})
+	r.Sample(c22replay{Frame: &c22case{F: framing{"none", []int{70000, 0}, 2, false}, D: delivery{65536, 70007, 0, false}}})
 	r.Sample(c22replay{Forged: &forgedCase{Alg: "deflate", Valid: 1, Declared: csLimit + 1}})
-	r.Sample(c22replay{Frame: &c22case{F: framing{"none", []int{127, 3}, 2, true}, D: delivery{0, 133, 1}}})
+	r.Sample(c22replay{Frame: &c22case{F: framing{"none", []int{127, 3}, 2, true}, D: delivery{0, 133, 1, false}}})
 }
 
 func (p *produced) sinkWrites() []int {
